@@ -43,6 +43,10 @@ def configs(tier, seed):
                     ek = "x".join(f"{l}{k}" for l, k in extra.items()) or "-"
                     out.append(dict(h="conserve", op=kind, key=f"conserve/{kind}/grid={grid}/n={n}/extra={ek}", kind=kind, grid=grid, n=n, extra=extra))
                     out.append(dict(h="balance", op=kind, key=f"balance/{kind}/grid={grid}/n={n}/extra={ek}", kind=kind, grid=grid, n=n, extra=extra))
+    # a second model on another grid with the same end points and length, built after a first one in the same process
+    for kind in ["flow", "idsm", "sdsm_manual"]:
+        for n in ([4] if tier == "quick" else [4, 5]):
+            out.append(dict(h="second_grid", op=kind, key=f"second_grid/{kind}/n={n}", kind=kind, grid="uneven", n=n, extra={"r": 2}))
     # real lifetime classes (symbolic scalar parameters, scipy kernels as uninterpreted functions)
     # (stock-driven x real class adds no flodym code over stock-driven x free table + inflow-driven x real
     #  class, and its nested quotients over uninterpreted functions cost minutes per configuration)
@@ -60,6 +64,10 @@ def configs(tier, seed):
 
 def ctx_setup(cfg, c):
     c.purify_div = cfg.get("kind", "").startswith("sdsm")
+
+
+def _drive_names(kind):
+    return {"flow": ["in", "out"], "idsm": ["in"]}.get(kind, ["st"])
 
 
 def _drive(w, kind, shape):
@@ -102,6 +110,18 @@ def run(cfg, w):
         _conservation_obs(w, st, dt, shape, chain=kind.startswith("sdsm"))
         return
     y, dt, b = dsm.make_grid(w, n, cfg["grid"])
+    if h == "second_grid":
+        # first model on grid y; then the model under test on y2 = (y0, fresh interior items, y_last)
+        d1 = dsm.make_dims(y, extra)
+        lt1 = None if kind == "flow" else dsm.AnyLifetime(dims=d1, table=dsm.sf_table(w, n, d1.shape[1:], name="sfa", constrain=("range",), diag_min=(0.05 if kind.startswith("sdsm") else None)))
+        drv1 = {{"in": "inflow", "out": "outflow", "st": "stock"}[k_]: w.arr("a" + k_, d1.shape) for k_ in _drive_names(kind)}
+        s1 = dsm.build_stock(kind, d1, lifetime=lt1, **drv1)
+        s1.compute()
+        y2 = [y[0]] + [w.real(f"z{i}", default=float(2000 + dsm._UNEVEN[i]) + 0.5) for i in range(1, n - 1)] + [y[-1]]
+        for i in range(n - 1):
+            w.assume(w.gt(y2[i + 1] - y2[i], 0))
+        y = y2
+        dt, b = dsm.oracle_bounds(y)
     dims = dsm.make_dims(y, extra)
     shape = dims.shape
     lifetime = None
@@ -113,7 +133,7 @@ def run(cfg, w):
     st = dsm.build_stock(kind, dims, lifetime=lifetime, **drv)
     st.compute()
     chain = kind.startswith("sdsm")
-    if h == "conserve":
+    if h in ("conserve", "second_grid"):
         _conservation_obs(w, st, dt, shape, chain)
         return
     # ---- balance: self-check accepts every computed stock, rejects a perturbed one
